@@ -81,7 +81,9 @@ async function check (job, resp, prefix, opts) {
   const push = (kindS, what, extra) => violations.push({ sig: sig(kindS), what, witness: Object.assign({ code: job.code, config: job.config, cfgName: job.cfgName, meta: job.meta, output: clip(resp.ok.raw.code, 5000) }, extra || {}) })
   let a, b
   try { a = A.parse(job.code, { module: job.meta.module }); b = A.parse(resp.ok.raw.code, { module: job.meta.module }) } catch (e) { out.skipped = 'unparsable: ' + e.message; return { out, violations } }
-  const da = directiveLists(a)
+  // (second pass: the input carries the prologue of the first pass; its IIFE is skipped on both sides)
+  const proIn = job.meta.secondPass ? a.body.filter(A.isPrologueIf).map(st => [st.start, st.end]) : []
+  const da = directiveLists(a).filter(x => !proIn.some(([st, e]) => x.start >= st && x.start < e))
   // the output has one extra function (the prologue IIFE + noop arrow): drop functions inside the prologue statement
   const pro = b.body.filter(A.isPrologueIf).map(s => [s.start, s.end])
   const db = directiveLists(b).filter(x => !pro.some(([s, e]) => x.start >= s && x.start < e))
@@ -106,7 +108,7 @@ async function check (job, resp, prefix, opts) {
 module.exports = {
   id: 'C07',
   level: 'exploration',
-  rule: 'programs = 12 function kinds (declaration, expression, arrow, method, getter, constructor, static method, generator, nested inner/outer, IIFE, callback) x directive prologues of length 0-3 drawn from {\'use strict\', "use strict", \'other directive\', a 13-char string} in any order x file-level prologues of length 0-2 x body with/without instrumented code x hashbang / leading comments / module. Monitors: (structural) the directive prologue of the program and of every function body as acorn parses it must be identical in input and output; (dynamic) strictness probes (assignment to an undeclared name, this of a plain call, arguments aliasing, typeof this) are executed in input and output and compared event by event. distinct_nontrivial = distinct programs with >= 1 directive and a modified output.',
+  rule: 'programs = 12 function kinds (declaration, expression, arrow, method, getter, constructor, static method, generator, nested inner/outer, IIFE, callback) x directive prologues of length 0-3 drawn from {\'use strict\', "use strict", \'other directive\', a 13-char string} in any order x file-level prologues of length 0-2 x body with/without instrumented code x hashbang / leading comments / module. Monitors: (structural) the directive prologue of the program and of every function body as acorn parses it must be identical in input and output; (dynamic) strictness probes (assignment to an undeclared name, this of a plain call, arguments aliasing, typeof this) are executed in input and output and compared event by event. distinct_nontrivial = distinct programs with >= 1 directive and a modified output. Second pass: every third modified output is rewritten again under another prefix; its directive prologues must be the ones of its input once more.',
   assumptions: ['legacy-octal acceptance is not probed (it would make the strict variant of the input invalid)', "'use asm' is not generated"],
   plan (ctx) {
     const n = ctx.tier === 'thorough' ? 40000 : 6000
@@ -135,6 +137,21 @@ module.exports = {
       if (js[i].meta.dirs.length + js[i].meta.fileDirs.length > 0) rep.distinct.push(hashStr(js[i].code))
       if (rep.samples.length < 2 && js[i].meta.dirs.length > 1) rep.samples.push({ input: clip(js[i].code, 900), config: js[i].cfgName, completion: out.exec && out.exec.baseCompletion })
       for (const v of violations) rep.violations.push(v)
+    }
+    // second pass: every third modified output is rewritten again (another prefix, as when an already instrumented file
+    // reaches the rewriter once more); its directive prologues - file and functions - must again be the ones of its input
+    const again = []
+    for (let i = 0; i < js.length; i += 3) { const r = responses[i]; if (r && r.ok && r.ok.metrics && r.ok.metrics.status === 'modified') again.push({ code: r.ok.content, meta: Object.assign({}, js[i].meta, { secondPass: true }), config: Object.assign({}, js[i].config, { localVarPrefix: 'second' }), cfgKey: 'second:' + js[i].cfgKey, cfgName: js[i].cfgName + '+second-pass' }) }
+    if (again.length) {
+      const r2 = rewriteJobs(again)
+      for (let i = 0; i < again.length; i++) {
+        const { out, violations } = await check(again[i], r2.responses[i], r2.prefixes[i], { exec: false })
+        bump('second_pass:' + out.k)
+        if (out.k !== 'ok-modified' || out.skipped) continue
+        rep.evaluations++
+        bump('second_pass_bodies_compared', out.bodies || 0)
+        for (const v of violations) rep.violations.push(Object.assign({}, v, { sig: 'second-pass:' + v.sig }))
+      }
     }
     return rep
   },
